@@ -170,12 +170,31 @@ class _Norm(object):
     cdf = staticmethod(_norm_cdf)
 
 
-def install(spec=None):
-    """spec keys: random (facade for np.random), myokit, extra (dict
-    module -> {name: object}), pi_symbolic."""
+def install(spec=None, concrete=False):
+    """spec keys: random (facade for np.random), myokit (True -> the myokit
+    stub), extra (dict module -> {name: object}), pi_symbolic.  With
+    ``concrete`` only the myokit stub is installed (the float code runs on the
+    real NumPy; sundials is absent, so the solver stays a stub)."""
     spec = spec or {}
     if _installed[0]:
         uninstall()
+    if spec.get('myokit'):
+        from .facade_myokit import MyokitFacade
+        spec = dict(spec)
+        spec['myokit'] = MyokitFacade()
+    if concrete:
+        if not spec.get('myokit'):
+            return None
+        for name in CHI_MODULES:
+            try:
+                mod = importlib.import_module(name)
+            except Exception:
+                continue
+            if hasattr(mod, 'myokit'):
+                _saved.append((mod, 'myokit', True, mod.__dict__['myokit']))
+                setattr(mod, 'myokit', spec['myokit'])
+        _installed[0] = True
+        return None
     np_f = NP(random=spec.get('random', _RandomProxy()),
               pi_symbolic=spec.get('pi_symbolic', True))
     import pints
